@@ -890,6 +890,21 @@ func (x *Exec) callContract(fc *FuncContract, fi *FuncInfo, sig *types.Signature
 	old := st.clone()
 	// frame
 	mw := x.mayWrite(fi, fc)
+	// a callee that writes state owned by a lock must be called with that lock held exclusively, not through RLock
+	{
+		cs := x.prog.Contracts
+		flagged := map[string]bool{}
+		for _, k := range sortedKeysB(mw) {
+			name := strings.TrimPrefix(k, "f:")
+			name = strings.TrimSuffix(strings.TrimSuffix(name, ".has"), ".val")
+			if lock, ok := cs.Owned[name]; ok && !flagged[lock] {
+				if rl, isT := x.getHeap(st, x.readLockedKey(lock)).(Term); isT && rl.S != "false" {
+					flagged[lock] = true
+					x.assertSafety(st, "own", "call to "+key+", which writes state owned by "+lock+", requires "+lock+" to be held exclusively (not through RLock)", tNot(rl), pos)
+				}
+			}
+		}
+	}
 	if mw["*"] {
 		for _, k := range sortedKeys(x.heapBase) {
 			if (strings.HasPrefix(k, "f:") || strings.HasPrefix(k, "m:") || strings.HasPrefix(k, "box:")) && !x.prog.Contracts.Immutable[strings.TrimPrefix(k, "f:")] {
@@ -1351,6 +1366,12 @@ func (x *Exec) syncCall(fn *types.Func, f *ast.SelectorExpr, st *State, pos toke
 			x.havocOwned(st, k)
 		}
 		x.setHeap(st, hk, tTrue)
+		// a read lock (RWMutex.RLock) lets other readers in: state owned by the lock may be read, not written
+		if fn.Name() == "RLock" {
+			x.setHeap(st, x.readLockedKey(class), tTrue)
+		} else {
+			x.setHeap(st, x.readLockedKey(class), tFalse)
+		}
 		x.setHeap(st, x.didLockKey(class), tTrue)
 		x.snapshotOwned(st, class, "atlock:")
 		snap := map[string]Value{}
